@@ -26,6 +26,7 @@ ASSUMPTIONS = [
 STEP_KINDS = [
     "set_scalar_kw", "del_scalar_kw", "set_schema_kw", "prop_add", "prop_del", "prop_replace_all",
     "prop_flip_required", "prop_replace_element", "class_kw", "elements_assign", "set_default",
+    "prop_replace_other_source",
 ]
 REQUIRED_COUNTERS = ["histories", "compare.calls", "compare.accepted", "compare.rejected", "triples",
                      "target.Object", "target.Element"] + [f"step.{k}" for k in STEP_KINDS]
@@ -152,11 +153,12 @@ def apply_step(rng, spec, root, notpassed):
         if kind == "Object":
             choices += ["class_kw", "prop_add", "set_schema_kw"]
             if node.get("props"):
-                choices += ["prop_del", "prop_flip_required", "prop_replace_element"]
+                choices += ["prop_del", "prop_flip_required", "prop_replace_element", "prop_replace_other_source"]
         if kind == "Element":
             choices += ["prop_add", "prop_replace_all"]
             if node.get("kw", {}).get("properties"):
-                choices += ["prop_del", "prop_flip_required", "prop_replace_element"]
+                choices += ["prop_del", "prop_flip_required", "prop_replace_element",
+                            "prop_replace_other_source"]
         if kind in ("AnyOf", "OneOf", "AllOf", "Not"):
             choices.append("elements_assign")
         if not choices:
@@ -264,6 +266,18 @@ def apply_step(rng, spec, root, notpassed):
                 new_el = small_spec(rng)
                 holder[name] = dict(holder[name], el=new_el)
                 live.properties[name].element = gen_dsl.build(new_el)
+            elif step == "prop_replace_other_source":
+                # a new Property object under the SAME attribute name but another JSON name
+                from vlib import sut  # pylint: disable=import-outside-toplevel
+
+                old_source = holder[name].get("source")
+                new_source = rng.choice([None, name + "_json", "SRC_" + name])
+                if new_source == old_source:
+                    new_source = name + "_other"
+                pspec = {"el": small_spec(rng), "required": rng.random() < 0.5, "source": new_source}
+                holder[name] = pspec
+                live.properties[name] = sut.Property(
+                    gen_dsl.build(pspec["el"]), required=pspec["required"], source=new_source)
         if step == "elements_assign":
             if kind == "Not":
                 node["element"] = small_spec(rng)
